@@ -30,7 +30,7 @@ CFG = dict(
            "histogram<int,int> <2,1> of rgb8", "histogram<int,long> <3,0> of rgba8",
            "std::vector<int>", "std::array<int,256|65536>", "std::map<int,int>"],
     assumptions=["limits are limits on the bin key (documented semantics); lower <= upper; masks have the view's dimensions",
-                 "'divided by the bin width' for negative channel values: truncation or floor are both accepted, anything else is a violation",
+                 "the bin key is the C++ signed division ch / bin_width (truncation toward zero) for every channel value and every bin width, powers of two included; limits compare these keys; every signed image of the negative class holds negative values that are not multiples of the bin width in its first pixel and about half of the others",
                  "dense pre-fill only with an explicit finite limit box and only meaningful for 1-D histograms (filler<1>); zero bins that the loop does not have are allowed",
                  "sub_histogram(lo,hi) is checked over one selected axis (tuple comparison is lexicographic for more)",
                  "std-container fillers: unsigned 8/16-bit channels only, as the header requires; the gray conversion is GIL's own (judged by C09)",
@@ -40,6 +40,7 @@ CFG = dict(
               min_cases={"quick": [196, 98, 98, 98, 196][k], "thorough": [400, 200, 200, 200, 400][k]}) for k in range(_PARTS)],
     require_obs=["fill.dense.accumulate*", "fill.dense.replace*", "fill.sparse.accumulate*", "fill.sparse.replace.mask.limits",
                  "fill.dense-noop.*", "std.accumulate", "std.replace",
+                 "content.neg-nonmultiple.bw-pow2", "content.neg-nonmultiple.bw-other",
                  "post.normalized.d1.fractional", "post.normalized.d2.fractional", "post.normalized.d3.fractional", "post.normalized.d4.fractional",
                  "cumulative.corner.normalized.d1", "cumulative.corner.normalized.d2", "cumulative.corner.normalized.d3", "cumulative.corner.normalized.d4"],
 )
